@@ -38,6 +38,7 @@ type SolverStats struct {
 type Solver struct {
 	kind      string // "z3", "z3-new", "cvc5"
 	timeoutMs int
+	watchdog  bool
 	cmd       *exec.Cmd
 	in        io.WriteCloser
 	out       *bufio.Reader
@@ -121,6 +122,18 @@ var valueRe = regexp.MustCompile(`\(\s*([A-Za-z_][A-Za-z0-9_]*)\s+(#x[0-9a-fA-F]
 func (sv *Solver) roundTrip(text string) ([]string, error) {
 	sv.seq++
 	marker := "DONE" + strconv.Itoa(sv.seq)
+	// Watchdog: z3's :timeout is not honoured in every phase (a large query can
+	// sit in preprocessing far beyond it). After 1.5x the timeout plus 10 s the
+	// process is killed; the query then counts as unknown.
+	sv.watchdog = false
+	cmd := sv.cmd
+	timer := time.AfterFunc(time.Duration(sv.timeoutMs)*3/2*time.Millisecond+10*time.Second, func() {
+		sv.watchdog = true
+		if cmd != nil && cmd.Process != nil {
+			cmd.Process.Kill()
+		}
+	})
+	defer timer.Stop()
 	if _, err := io.WriteString(sv.in, text+"(echo \""+marker+"\")\n"); err != nil {
 		return nil, err
 	}
@@ -191,7 +204,11 @@ func (sv *Solver) Check(asserts []*Term) (Result, Model) {
 	res := Unknown
 	if err != nil {
 		sv.LastError = err.Error()
-		sv.Stats.Errors++
+		if sv.watchdog {
+			sv.LastError = "killed by the watchdog after exceeding the time limit"
+		} else {
+			sv.Stats.Errors++
+		}
 		sv.Stats.Unknown++
 		sv.restart()
 		return Unknown, nil
